@@ -160,6 +160,10 @@ type Run struct {
 	fi    *os.File
 	n     int
 	hung  bool
+
+	cur    *os.File // current-case.ops
+	curBuf []byte
+	curLen int
 }
 
 func NewRun(prop string, seed uint64, tier, out string, budget float64) *Run {
@@ -215,15 +219,22 @@ func (r *Run) Do(component string, c Case, exec Exec) Result {
 	r.n++
 	// what is being executed, for the case that the process does not survive it (stack overflow, fatal runtime
 	// error, out of memory): bin/check turns the file into the replay of a violation when the harness dies
-	cur := filepath.Join(r.Out, "current-case.ops")
-	{
-		var b strings.Builder
-		fmt.Fprintf(&b, "# property=%s component=%s seed=%d\n# the harness process died while executing this case\n# case 1 %s\n", r.Prop, component, r.Seed, c.Header)
+	// (one open file, rewritten in place: two system calls per case — the bounded-exhaustive tiers run millions of cases)
+	if r.cur == nil {
+		r.cur, _ = os.OpenFile(filepath.Join(r.Out, "current-case.ops"), os.O_CREATE|os.O_RDWR|os.O_TRUNC, 0o644)
+	}
+	if r.cur != nil {
+		r.curBuf = r.curBuf[:0]
+		r.curBuf = fmt.Appendf(r.curBuf, "# property=%s component=%s seed=%d\n# the harness process died while executing this case\n# case 1 %s\n", r.Prop, component, r.Seed, c.Header)
 		for _, op := range c.Ops {
-			b.WriteString(op)
-			b.WriteByte('\n')
+			r.curBuf = append(r.curBuf, op...)
+			r.curBuf = append(r.curBuf, '\n')
 		}
-		os.WriteFile(cur, []byte(b.String()), 0o644)
+		if len(r.curBuf) < r.curLen { // shorter than what is in the file: cut the old tail off
+			r.cur.Truncate(int64(len(r.curBuf)))
+		}
+		r.cur.WriteAt(r.curBuf, 0)
+		r.curLen = len(r.curBuf)
 	}
 	// Safety net: an executor without a watchdog of its own must not let a non-returning operation of
 	// (changed) code under test stall the whole check. A case that does not come back within
@@ -305,6 +316,9 @@ func (r *Run) Do(component string, c Case, exec Exec) Result {
 }
 
 func (r *Run) Finish() {
+	if r.cur != nil {
+		r.cur.Close()
+	}
 	os.Remove(filepath.Join(r.Out, "current-case.ops"))
 	r.ops.Flush()
 	r.impl.Flush()
